@@ -193,9 +193,14 @@ def cases(rng, tier):
     # homogeneous (0D) model: bounds, ice clauses, no ice before the reported nucleation time
     yield u._base("shelf", 0.01, 0.01, 200, 1500, dim="homogeneous", start=20, stop=-50, rate=0.5)
     yield u._base("shelf", 0.02, 0.02, 400, 2500, dim="homogeneous", start=5, stop=-40, rate=0.2, holds=[[-5, 60]])
+    # 0D controlled nucleation with a thermal lag (rate * rho*cp*H/K ~ 16 K) far larger than the targeted supercooling
+    yield u._base("shelf", 0.01, 0.01, 50, 6500, dim="homogeneous", start=20, stop=-50, rate=0.02, cn=-5.0)
+    yield u._base("shelf", 0.02, 0.02, 100, 9000, dim="homogeneous", start=10, stop=-45, rate=0.02, cn=-3.0,
+                  solution={"solid_fraction": 0.1})
     if tier != "quick":
         yield u._base("shelf", 0.01, 0.01, 50, 6000, dim="homogeneous", start=20, stop=-50, rate=0.05,
                       solution={"T_eq": -1.0})
+        yield u._base("shelf", 0.01, 0.01, 50, 12000, dim="homogeneous", start=20, stop=-50, rate=0.00833, cn=-5.0)
     # object histories: run, then `S.opcond` replaced / edited, run again -- bounds against the CURRENT programme
     b1 = u._base("shelf", 0.01, 0.04, 1000, 200, dim="spatial_1D")
     b2 = u._base("shelf", 0.01, 0.04, 1000, 200)
